@@ -118,8 +118,11 @@ class IndexWorld(World):
         if source == 'plain':
             small_files(self.dir)
             self.m = dc.Index(self.dir, pairs)
-        elif source == 'fanout':
-            self.owner = dc.FanoutCache(self.dir, shards=2)
+        elif source in ('fanout', 'fanout-lru'):
+            extra = {} if source == 'fanout' else {
+                'eviction_policy': 'least-recently-used', 'size_limit': 1000,
+                'cull_limit': 10}
+            self.owner = dc.FanoutCache(self.dir, shards=2, **extra)
             self.m = self.owner.index('ix')
             self.m.update(pairs)
         else:
@@ -161,6 +164,33 @@ class IndexWorld(World):
         elif name == 'limit0':
             self.m.cache.reset('size_limit', 0)
             got = want = None
+        elif name in ('txn_abort', 'txn_commit'):
+            def run_block():
+                with self.m.transact():
+                    for b in op[1]:
+                        map_op(self.m, b, False)
+                    if name == 'txn_abort':
+                        raise KeyboardInterrupt
+            try:
+                run_block()
+                got = None
+            except KeyboardInterrupt:
+                got = 'aborted'
+            except Exception as exc:
+                got = Raises(type(exc).__name__)
+            # reference: all or nothing
+            import copy as _copy
+            trial = _copy.deepcopy(self.ref)
+            want = None
+            for b in op[1]:
+                r = call(map_op, trial, b, True)
+                if isinstance(r, Raises):
+                    want = r
+                    break
+            if want is None and name == 'txn_commit':
+                self.ref = trial
+            elif want is None:
+                want = 'aborted'
         else:
             got = call(map_op, self.m, op, False)
             want = call(map_op, self.ref, op, True)
@@ -207,7 +237,10 @@ def alphabet():
             ('iter',), ('reversed',), ('len',), ('clear',),
             ('eq', 'od', (('a', 0), ('b', 0))), ('eq', 'od', (('b', 0), ('a', 0))),
             ('eq', 'dict', (('b', 0), ('a', 0))), ('eq', 'dict', (('a', 0),)),
-            ('eqself',), ('reopen',), ('pickle',), ('limit0',)]
+            ('eqself',), ('reopen',), ('pickle',), ('limit0',),
+            ('txn_abort', (('set', 'a', BIG2), ('set', 'z', 1))),
+            ('txn_abort', (('popitem', True),)),
+            ('txn_commit', (('set', 'b', BIG2), ('set', 'y', 2)))]
     return ops
 
 
@@ -305,6 +338,8 @@ def main(tier, seed):
         units.append(('bfs', (('a', 0),), 'fanout', depth, seed, cap, ch, nch))
         units.append(('bfs', (('b', BIG),), 'django', depth, seed, cap, ch,
                       nch))
+        units.append(('bfs', (('a', 0), ('b', 1)), 'fanout-lru', depth, seed,
+                      cap, ch, nch))
     for programs, init, bound in sched_plan(tier):
         for mode in (('own',) if tier == 'quick' else ('own', 'shared')):
             units.append(('sched', programs, init, bound, mode, cap))
